@@ -74,6 +74,10 @@ pub struct VmDspRuntime {
     dsp_i: usize,
     /// Cached output buffer – filled after each `run_dsp` call.
     output_cache: Vec<f64>,
+    /// Input samples of the current tick. `set_input` writes them to the bottom of the VM stack,
+    /// where `dsp` reads its arguments; a task that a system plugin runs in `on_sample` uses the
+    /// same stack, so they are written again right before `dsp` is executed.
+    input_cache: Vec<u64>,
 }
 
 impl VmDspRuntime {
@@ -87,11 +91,13 @@ impl VmDspRuntime {
             .filter_map(|p| p.take_audioworker())
             .collect();
         let ochannels = vm.prog.iochannels.map_or(0, |io| io.output as usize);
+        let ichannels = vm.prog.iochannels.map_or(0, |io| io.input as usize);
         Self {
             vm,
             sys_plugin_workers,
             dsp_i,
             output_cache: vec![0.0; ochannels],
+            input_cache: vec![0u64; ichannels],
         }
     }
 
@@ -108,6 +114,11 @@ impl DspRuntime for VmDspRuntime {
                 let _ = plug.on_sample(time, &mut self.vm);
             },
         );
+        // The workers may have executed scheduled tasks on the VM stack: put the inputs of this tick
+        // back where `dsp` reads them.
+        if !self.input_cache.is_empty() {
+            self.vm.set_stack_range(0, &self.input_cache);
+        }
         let rc = self.vm.execute_idx(self.dsp_i);
 
         // Cache the output so get_output() can return a slice.
@@ -127,6 +138,8 @@ impl DspRuntime for VmDspRuntime {
     fn set_input(&mut self, input: &[f64]) {
         let raw = unsafe { std::mem::transmute::<&[f64], &[u64]>(input) };
         self.vm.set_stack_range(0, raw);
+        self.input_cache.clear();
+        self.input_cache.extend_from_slice(raw);
     }
 
     fn io_channels(&self) -> Option<IoChannelInfo> {
@@ -143,6 +156,8 @@ impl DspRuntime for VmDspRuntime {
 
             let ochannels = self.vm.prog.iochannels.map_or(0, |io| io.output as usize);
             self.output_cache.resize(ochannels, 0.0);
+            let ichannels = self.vm.prog.iochannels.map_or(0, |io| io.input as usize);
+            self.input_cache.resize(ichannels, 0);
             true
         } else {
             false
@@ -269,11 +284,13 @@ impl TryFrom<&mut ExecContext> for RuntimeData {
         if let Some(IoChannelInfo { input, .. }) = vm.prog.iochannels {
             vm.set_stack_range(0, &vec![0u64; input as usize]);
         }
+        let ichannels = vm.prog.iochannels.map_or(0, |io| io.input as usize);
         let runtime = Box::new(VmDspRuntime {
             vm,
             sys_plugin_workers,
             dsp_i,
             output_cache: vec![0.0; ochannels],
+            input_cache: vec![0u64; ichannels],
         });
         Ok(Self { runtime })
     }
